@@ -639,6 +639,10 @@ func listPlans(c *engine.Ctx, prop string) []listPlan {
 			plans = append(plans, listPlan{cfg: drv.Config{Kind: k}, u: u, depth: depth})
 		}
 	}
+	if quick(c) {
+		// one real-directory world also in the quick tier (ENOTDIR and friends only exist there)
+		plans = append(plans, listPlan{cfg: drv.Config{Kind: drv.MultiDir}, u: u2, depth: depth - 1}, listPlan{cfg: drv.Config{Kind: drv.SingleDir}, u: u2, depth: depth - 1})
+	}
 	// upper/lower case of the same letter: byte order is not case-folded order
 	uc := newListUniverse("Aa/", 3, 3, "a", 7)
 	for _, k := range []drv.Kind{drv.Mem, drv.Bolt, drv.MultiMem} {
